@@ -101,7 +101,7 @@ pub fn build_err_tag(s: &str) -> String {
 // ---------- CLI ----------
 pub struct CliSpec<'a> { pub container: &'a str, pub transport: &'a str, pub threads: usize, pub layout: u64 }
 
-fn container_bytes(cs: &CallSet, container: &str, layout: u64) -> Option<Vec<u8>> {
+pub fn container_bytes(cs: &CallSet, container: &str, layout: u64) -> Option<Vec<u8>> {
     let text = vcf::vcf_text(cs);
     let mut r = crate::rng::Rng::new(layout);
     let cuts = |len: usize, r: &mut crate::rng::Rng| -> Vec<usize> {
